@@ -80,7 +80,7 @@ fn case_of(subj: impl Strategy<Value = Subj>) -> impl Strategy<Value = Case> {
             Subj::Wk(Wk::LvlOpt(_)) | Subj::Wk(Wk::TraceIdOpt(_)) | Subj::Wk(Wk::SpanIdOpt(_)) => Opt::Plain,
             _ => opt,
         };
-        Case { subj, mode, opt, hops, as_map, emit_macro: false }
+        Case { subj, mode, opt, hops, as_map, emit_macro: false, sinks: false }
     })
 }
 
@@ -101,6 +101,31 @@ fn emit_macro_case() -> impl Strategy<Value = Case> {
     case_of(subj).prop_map(|mut c| {
         c.emit_macro = true;
         c
+    })
+}
+
+/// Numbers, booleans and strings through `emit::emit!` call sites into the real sinks.
+fn sink_case() -> impl Strategy<Value = Case> {
+    use Mode::*;
+    let subj = prop_oneof![
+        3 => any_i64().prop_map(Subj::I64),
+        4 => any_u64().prop_map(Subj::U64),
+        3 => u128_wide().prop_map(Subj::U128),
+        3 => f64_bits().prop_map(Subj::F64),
+        1 => f32_bits().prop_map(Subj::F32),
+        1 => any::<bool>().prop_map(Subj::Bool),
+        2 => any_text().prop_map(Subj::Str),
+        2 => any_text().prop_map(Subj::String),
+    ];
+    (subj, any::<u32>(), opt()).prop_map(|(subj, mi, opt)| {
+        let modes: &[Mode] = match &subj {
+            Subj::F32(_) => &[Default, Default, Display, Debug, Sval, Serde],
+            // a `str` is stored as the string itself under every attribute (don't-care under the fmt attributes)
+            Subj::Str(_) => &[Default, Default, Value, Sval, Serde],
+            _ => &[Default, Default, Default, Value, Display, Debug, Sval, Serde],
+        };
+        let mode = modes[pick(mi, modes.len())];
+        Case { subj, mode, opt, hops: Vec::new(), as_map: false, emit_macro: true, sinks: true }
     })
 }
 
@@ -223,6 +248,13 @@ fn main() {
         s.gen("errors", s.n(40_000, 1_200_000), || case_of(errors()), sites::check);
         s.gen("well-known", s.n(16_000, 500_000), || case_of(well_known()), sites::check);
         s.gen("emit-macro", s.n(40_000, 1_200_000), emit_macro_case, sites::check);
+
+        // "via each sink": the same call sites, the event handed to emit_file and emit_otlp (JSON + protobuf)
+        s.require("path:sinks", 1000);
+        s.require("sinks:integer-beyond-i64", 100);
+        s.require("sinks:non-finite-float", 20);
+        s.gen("sink-paths", s.n(6_000, 200_000), sink_case, sites::check);
+        c13::sinks::shutdown();
 
         // three properties per call, any subset optional / None, every source order, props!/emit!/info!
         s.require("siblings:none-sorts-before-a-present-sibling", 2000);
